@@ -86,6 +86,11 @@ type BlockPipeline struct {
 	wg              sync.WaitGroup
 	mu              sync.Mutex   // protects Start/Stop
 	submitMu        sync.RWMutex // protects Submit against concurrent Stop
+
+	// outstanding counts items accepted by Submit (or being sent by it) whose
+	// result has not been forwarded to Results() yet. Unlike the channel
+	// lengths it also covers items held by a decode, validate or apply worker.
+	outstanding atomic.Int64
 }
 
 // NewBlockPipeline creates a new BlockPipeline using functional options.
@@ -190,6 +195,7 @@ func (p *BlockPipeline) Start(ctx context.Context) error {
 		bufSize, // Deprecated: pendingQueueSize is no longer used (kept for API compatibility)
 	)
 	p.applyRunner.SetMetrics(p.metrics)
+	p.applyRunner.SetOnForwarded(func() { p.outstanding.Add(-1) })
 
 	// Start all stages
 	// Note: p.ctx is derived from the passed ctx via context.WithCancel above
@@ -244,6 +250,10 @@ func (p *BlockPipeline) Submit(ctx context.Context, blockType uint, rawCbor []by
 
 	item := NewBlockItem(blockType, rawCbor, tip, p.sequenceCounter.Load())
 
+	// Count the item before it becomes visible to the workers so that
+	// PendingCount never under-reports it.
+	p.outstanding.Add(1)
+
 	select {
 	case p.submitChan <- item:
 		p.sequenceCounter.Add(1)
@@ -251,8 +261,10 @@ func (p *BlockPipeline) Submit(ctx context.Context, blockType uint, rawCbor []by
 		return nil
 	case <-ctx.Done():
 		// Nothing was enqueued and no sequence number was consumed.
+		p.outstanding.Add(-1)
 		return ctx.Err()
 	case <-p.ctx.Done():
+		p.outstanding.Add(-1)
 		return ErrPipelineStopped
 	}
 }
@@ -327,19 +339,16 @@ func (p *BlockPipeline) Stats() PipelineStats {
 	return p.metrics.Stats()
 }
 
-// PendingCount returns the approximate number of items still being processed.
-// This includes items in inter-stage channels and items buffered in the apply stage.
+// PendingCount returns the number of submitted items whose result has not yet
+// been forwarded to Results(). This includes items in inter-stage channels,
+// items held by a decode, validate or apply worker, and items buffered in the
+// apply stage. Items discarded because the pipeline was stopped remain counted.
 // Useful for coordinating with rollback operations.
 func (p *BlockPipeline) PendingCount() int {
 	if !p.started.Load() {
 		return 0
 	}
-	channelDepth := len(p.submitChan) + len(p.decodedChan) + len(p.validatedChan)
-	applyPending := 0
-	if p.applyStage != nil {
-		applyPending = p.applyStage.PendingCount()
-	}
-	return channelDepth + applyPending
+	return int(p.outstanding.Load())
 }
 
 // WaitForDrain blocks until all currently submitted items have been processed
